@@ -37,6 +37,15 @@ def scenarios(ctx):
             o["samples"] = rng.sample(w["samples"], rng.randint(1, ns - 1))
         if len(w["chroms"]) > 1 and rng.random() < 0.3:
             o["chromosomes"] = [rng.choice(w["chroms"])["name"]]
+        # overlapping mate pairs whose first mate stops exactly on the anchor of an insertion the fragment carries
+        for ci, ch in enumerate(w["chroms"]):
+            for x, site in enumerate(ch["sites"]):
+                if site["kind"] == "ins" and 0 < x < len(ch["sites"]) - 1 and rng.random() < 0.5:
+                    for s_ in w["samples"]:
+                        for hap in (0, 1):
+                            if w["truth"][s_][ci][x][hap] == 1 and rng.random() < 0.7:
+                                w["reads"].append({"sample": s_, "chrom": ci, "hap": hap, "first": rng.randint(0, x - 1), "last": rng.randint(x + 1, len(ch["sites"]) - 1),
+                                                   "gap": None, "tight": x, "copies": rng.randint(1, 2)})
         w["opts"] = o
         scs.append({"world": w})
     return scs
